@@ -286,7 +286,9 @@ void add_space(mc::Runner &R, const std::string &name, const std::vector<int> &e
 }
 
 const uint32_t kU32Patterns[] = {0u, 1u, 0x7fffffffu, 0x80000000u, 0xffffffffu, 0x00010000u, 0x01000000u, 0x000000ffu};
-const uint64_t kVarintPatterns[] = {0ull, 127ull, 128ull, 1ull << 21, 0x7fffffffull, 0xffffffffull, 1ull << 35, UINT64_MAX};
+// 0xfffffffe / 0xfffffffd are the symbols of the signed varints INT32_MAX / INT32_MIN + 1
+const uint64_t kVarintPatterns[] = {0ull, 127ull, 128ull, 1ull << 21, 0x7fffffffull, 0xffffffffull, 1ull << 35, UINT64_MAX, 0xfffffffeull, 0xfffffffdull};
+const uint64_t kNumVarintPatterns = sizeof(kVarintPatterns) / sizeof(kVarintPatterns[0]);
 
 Bytes varint_bytes(uint64_t v) {
   Bytes b;
@@ -575,7 +577,7 @@ int main(int argc, char **argv) {
     std::vector<int> sub120;
     for (int i : g_sub)
       if (g_corpus[i].bytes.size() <= 120) sub120.push_back(i);
-    add_space(R, "byte255_sub_small", sub120, [](const Entry &e) { return (uint64_t)e.bytes.size() * 255; }, byte255, mode0, g_mode == M_C02, false);
+    add_space(R, "byte255_sub_small", sub120, [](const Entry &e) { return (uint64_t)e.bytes.size() * 255; }, byte255, mode0, false, g_mode == M_C02);
     // raw (not entropy coded) value blocks: a width byte with trailing data behind it - the full byte alphabet in the quick tier too
     std::vector<int> raw_storage;
     for (int i : all_gen)
@@ -598,8 +600,8 @@ int main(int argc, char **argv) {
   add_space(R, "u32_sub", sub_and_files, [](const Entry &e) { return (uint64_t)e.bytes.size() * 8; }, u32, mode0, true, false);
   add_space(R, "u32_all", all_small, [](const Entry &e) { return (uint64_t)e.bytes.size() * 8; }, u32, modes_q, false, true);
   Mutator varint = [](const Entry &e, uint64_t k, Bytes *out, std::string *op) {
-    const size_t i = k / 8;
-    const Bytes vb = varint_bytes(kVarintPatterns[k % 8]);
+    const size_t i = k / kNumVarintPatterns;
+    const Bytes vb = varint_bytes(kVarintPatterns[k % kNumVarintPatterns]);
     out->assign(e.bytes.begin(), e.bytes.begin() + i);
     out->insert(out->end(), vb.begin(), vb.end());
     // skip the varint that was there (all continuation bytes + the final one)
@@ -607,11 +609,11 @@ int main(int argc, char **argv) {
     while (j < e.bytes.size() && (e.bytes[j] & 128)) ++j;
     if (j < e.bytes.size()) ++j;
     out->insert(out->end(), e.bytes.begin() + j, e.bytes.end());
-    *op = "varint(" + std::to_string(i) + "," + std::to_string(kVarintPatterns[k % 8]) + ")";
+    *op = "varint(" + std::to_string(i) + "," + std::to_string(kVarintPatterns[k % kNumVarintPatterns]) + ")";
     return *out != e.bytes;
   };
-  add_space(R, "varint_sub", sub_and_files, [](const Entry &e) { return (uint64_t)e.bytes.size() * 8; }, varint, mode0, true, false);
-  add_space(R, "varint_all", all_small, [](const Entry &e) { return (uint64_t)e.bytes.size() * 8; }, varint, modes_q, false, true);
+  add_space(R, "varint_sub", sub_and_files, [](const Entry &e) { return (uint64_t)e.bytes.size() * kNumVarintPatterns; }, varint, mode0, true, false);
+  add_space(R, "varint_all", all_small, [](const Entry &e) { return (uint64_t)e.bytes.size() * kNumVarintPatterns; }, varint, modes_q, false, true);
   // a very long run of varint continuation bytes at every offset: depth limits that are counted wrongly only show with
   // hundreds of thousands of bytes (one stack frame each)
   {
